@@ -13,6 +13,10 @@ inductive EKind where
   | incompleteInput
   /-- `ParseIntError`: with an all-digit, non-empty text only `PosOverflow` can occur -/
   | parseIntOverflow
+  /-- the other `ParseIntError`s (`Empty`, `InvalidDigit`): not produced on digit strings; present so that the
+  meaning of `str::parse::<u64>` can be stated in full -/
+  | parseIntEmpty
+  | parseIntInvalidDigit
   | maxInt (n : Nat)
   | context (s : String)
   | noValidRanges
